@@ -246,6 +246,9 @@ func workerBin(build string) string {
 	if build != "" {
 		name += "-" + build
 	}
+	if d := os.Getenv("VERIF_BIN"); d != "" {
+		return filepath.Join(d, name)
+	}
 	return filepath.Join(verifDir, "bin", name)
 }
 
